@@ -1,6 +1,8 @@
 """C06 - zoned arithmetic is DST-aware (composition only, rule PIPELINE)."""
 from .. import mir
 from ..term import Terms, show, alts, match, V, C, TRY, ok_payloads, is_call
+from ..guards import guards
+from ..term import walk
 from ..rules_dep import run_dep
 from .c08 import pipeline as civil_pipeline
 
@@ -24,7 +26,7 @@ def run(ctx, rep):
                          "dt = self.datetime().checked_add(c)?; ts = tz.to_ambiguous_timestamp(dt).compatible()?; "
                          "ts' = ts.checked_add(span.only_time())?; Ok(ts'.to_zoned(tz.clone())) with tz = self.time_zone(); the shortcut "
                          "and checked_add_duration are self.timestamp().checked_add(arg) mapped through to_zoned(self.time_zone()); "
-                         "checked_sub negates and delegates to checked_add; start_of_day = datetime().start_of_day().to_zoned(tz); "
+                         "checked_sub negates and delegates to checked_add; start_of_day = civil midnight of datetime() resolved in tz, with the transition instant when midnight is in a gap; "
                          "end_of_day resolves Gap->after, Fold->after")
     f = prog.jiff("zoned::Zoned::checked_add_span")
     r = Terms(f).returns()
@@ -80,11 +82,31 @@ def run(ctx, rep):
                       % (show(r, maxd=5), show(cr, maxd=5) if cr else None), f.loc())
     # start_of_day / end_of_day
     f = prog.jiff("zoned::Zoned::start_of_day")
-    r = Terms(f).returns()
-    if match(r, C("DateTime::to_zoned", C("DateTime::start_of_day", C("Zoned::datetime", SELF)), C("Zoned::time_zone", SELF))) is not None:
-        rep.ok("PIPELINE", "Zoned::start_of_day", how=show(r))
+    T = Terms(f)
+    cfg = mir.CFG(f)
+    # "the first instant whose civil date is that day": civil midnight resolved in the zone; and when midnight is in a gap the
+    # instant of the transition that made the gap (the compatible strategy shifts midnight forward by the length of the gap,
+    # which is the transition instant only if the gap starts exactly at midnight)
+    calls = {t.get("path", "").split("::")[-2] + "::" + t.get("path", "").split("::")[-1]: bi for bi, t in mir.iter_calls(f) if "::" in t.get("path", "")}
+    midnight = any(is_call(T.at_call(bi, t, 1), "DateTime::start_of_day") and is_call(T.at_call(bi, t, 1)[2][0], "Zoned::datetime")
+                   for bi, t in mir.iter_calls(f) if t.get("path", "").endswith("TimeZone::to_ambiguous_timestamp"))
+    gap_arm = False
+    adt = prog.adts.get("jiff::tz::ambiguous::AmbiguousOffset")
+    gap_v = [int(v["discr"]) for v in adt["variants"] if v["name"] == "Gap"][0] if adt else None
+    for bi, t in mir.iter_calls(f):
+        if t.get("path", "").endswith(("TimeZone::preceding", "TimeZone::previous_transition", "TimeZone::following")):
+            for (c, truth, _sb) in guards(f, cfg, T, bi):
+                if c[0] == "disc" and any(is_call(x, "AmbiguousTimestamp::offset") for x in walk(c)) and isinstance(truth, tuple) \
+                        and truth[0] == "eq" and truth[1] == [gap_v]:
+                    gap_arm = True
+    compat = any(t.get("path", "").endswith("AmbiguousTimestamp::compatible") for _, t in mir.iter_calls(f))
+    if midnight and gap_arm and compat:
+        rep.ok("PIPELINE", "Zoned::start_of_day", how="civil midnight resolved in the zone; Gap arm takes the transition instant; otherwise compatible")
     else:
-        rep.violation("PIPELINE", "Zoned::start_of_day", "start_of_day is %s, not datetime().start_of_day().to_zoned(tz)" % show(r, maxd=6), f.loc())
+        rep.violation("PIPELINE", "Zoned::start_of_day", "start_of_day must resolve civil midnight of datetime() in the zone (found: %s), answer a "
+                      "gap at midnight with the instant of the zone transition from the transition iterator (found: %s) and use the "
+                      "compatible strategy otherwise (found: %s): shifting midnight by the length of the gap is the first instant of the "
+                      "day only when the gap starts at 00:00" % (midnight, gap_arm, compat), f.loc())
     f = prog.jiff("zoned::Zoned::end_of_day")
     r = Terms(f).returns()
     sel = set()
